@@ -128,6 +128,16 @@ def atom_vocabulary():
     A.append(("cmp", "fields", ("x", ("map", "neg")), "<", 0))
     A.append(("cmp", "fields", ("x", ("map", "abs")), ">=", 1.5))
     A.append(("cmp", "fields", (("map", "ident"), "x"), ">=", 1.5))
+    # compiled patterns (their flags travel inside the pattern object) and patterns that match the empty string
+    A.append(("regex", "tags", ("k",), "matches", ("RE", "^b$", I), 0))
+    A.append(("regex", "tags", ("k",), "matches", ("RE", "^b$", 0), 0))
+    A.append(("regex", "tags", ("k",), "search", ("RE", "A", I), 0))
+    A.append(("regex", "measurement", (), "matches", ("RE", "M0", I), 0))
+    A.append(("regex", "tags", ("k",), "matches", ".*", 0))
+    A.append(("regex", "tags", ("k",), "search", "a?", 0))
+    # exists() on a path of two keys: a tag / field value is never a mapping
+    A.append(("exists", "tags", ("k", "a")))
+    A.append(("exists", "fields", ("x", "real")))
     A.append(("noop", "fields"))
     # noop() on a query that already names a key (present on some points only) or a map function: still every point
     A.append(("noop", "tags", ("k",)))
@@ -148,7 +158,7 @@ def quick_atoms(A):
             seen.add(key)
             keep.append(a)
     # one more each for the None/missing sensitive ones
-    return keep[:52] + [a for a in A if a[0] == "cmp" and a[1] == "fields" and isinstance(a[4], int) and abs(a[4]) > 2**52][:4] + [a for a in A if a[0] == "cmp" and a[1] == "time" and isinstance(a[4], tuple) and a[4][0] == "T" and a[4][1] in (T_FAR, T_OLD + 1)][:6] + [a for a in A if a[0] == "noop" and len(a) > 2][:3]
+    return keep[:52] + [a for a in A if a[0] == "cmp" and a[1] == "fields" and isinstance(a[4], int) and abs(a[4]) > 2**52][:4] + [a for a in A if a[0] == "cmp" and a[1] == "time" and isinstance(a[4], tuple) and a[4][0] == "T" and a[4][1] in (T_FAR, T_OLD + 1)][:6] + [a for a in A if a[0] == "noop" and len(a) > 2][:3] + [a for a in A if (a[0] == "regex" and isinstance(a[4], tuple)) or (a[0] == "exists" and isinstance(a[2], tuple))]
 
 
 CORE_ATOMS = [
